@@ -40,7 +40,8 @@ Inductive cop :=
 | ODropReset                       (* session.dropAndReset *)
 | OFlush                           (* stateMachine.SendAppMessages *)
 | OResend (b e : Z) (rejs : list Z)(* inSession.resendMessages b e; ToApp rejects the replay of the numbers in rejs *)
-| OLogonResetUnlocked              (* session.handleLogon: store.Reset() without sendMutex *)
+| OLogonResetUnlocked              (* session.handleLogon as generated, whatever its shape (store.Reset() without sendMutex) *)
+| OLogon                           (* session.handleLogon IF its generated program passes the shape check, else nothing *)
 | OSetLogged (b : bool)
 | OSetOut (b : bool) (room : nat). (* connect (room = free slots of messageOut) / disconnect *)
 
@@ -102,8 +103,10 @@ Definition caprim (a : cabs) (st : cstmt) : option cabs :=
   | SBuild =>          (* built from the number just read, not while answering a ResendRequest *)
       if hs && cphase_eqb ph PhRead && negb hw then Some (cabs_set a hs hr hw PhBuilt q kp) else None
   | SSaveIncr => if hs && cphase_eqb ph PhBuilt then Some (cabs_set a hs hr hw PhSaved q kp) else None
-  | SIncrOnly => if hs && cphase_eqb ph PhBuilt && okp_eqb kp (Some false) then Some (cabs_set a hs hr hw PhSaved q kp) else None
-  | SReplayBuild | SGapBuild _ _ => if cphase_eqb ph PhIdle then Some (cabs_set a hs hr hw PhRBuilt q kp) else None
+  | SIncrOnly => if hs && cphase_eqb ph PhBuilt then Some (cabs_set a hs hr hw PhSaved q kp) else None
+  | SReplayBuild =>    (* a stored message is replayed only while the resend write lock is held *)
+      if cphase_eqb ph PhIdle && hw then Some (cabs_set a hs hr hw PhRBuilt q kp) else None
+  | SGapBuild _ _ => if cphase_eqb ph PhIdle then Some (cabs_set a hs hr hw PhRBuilt q kp) else None
   | SAppend =>         (* append under sendMutex, after the number was consumed (first-time) or of a replay item *)
       if hs && (cphase_eqb ph PhSaved || cphase_eqb ph PhRBuilt) && negb (cqst_eqb q QStale) && negb (cqst_eqb q QReplay)
       then Some (cabs_set a hs hr hw PhIdle (if cphase_eqb ph PhRBuilt then QReplay else QUnknown) kp) else None
@@ -123,13 +126,8 @@ Definition cbranches (a : cabs) (c : ccond) : bool * bool :=   (* (then possible
   | CNot CResetFlag => (true, a_mayreset a)
   | _ => (true, true)
   end.
-(* what a branch learns *)
-Definition clearn (a : cabs) (c : ccond) (taken : bool) : cabs :=
-  match c with
-  | CNoPersist => cabs_set a (a_hs a) (a_hr a) (a_hw a) (a_ph a) (a_q a) (Some (negb taken))
-  | CNot CNoPersist => cabs_set a (a_hs a) (a_hr a) (a_hw a) (a_ph a) (a_q a) (Some taken)
-  | _ => a
-  end.
+(* (no path knowledge is kept in the abstract state; the persistence test is handled by [cpok_l] below) *)
+Definition clearn (a : cabs) (c : ccond) (taken : bool) : cabs := a.
 
 Fixpoint carun_s (st : cstmt) (a : cabs) {struct st} : option cabs :=
   match st with
@@ -201,6 +199,23 @@ Fixpoint cnosetout_s (st : cstmt) : bool :=
   end.
 Fixpoint cnosetout_l (l : list cstmt) : bool := match l with [] => true | x :: r => cnosetout_s x && cnosetout_l r end.
 
+(* IncrNextSenderMsgSeqNum() without saving occurs only on the DisableMessagePersist side of a test of that setting *)
+Fixpoint cpok_s (st : cstmt) : bool :=
+  match st with
+  | SIncrOnly => false
+  | SIf c t e =>
+      let ft := (fix go (l : list cstmt) : bool := match l with [] => true | x :: r => cpok_s x && go r end) t in
+      let fe := (fix go (l : list cstmt) : bool := match l with [] => true | x :: r => cpok_s x && go r end) e in
+      match c with
+      | CNoPersist => fe
+      | CNot CNoPersist => ft
+      | _ => ft && fe
+      end
+  | SIter b => (fix go (l : list cstmt) : bool := match l with [] => true | x :: r => cpok_s x && go r end) b
+  | _ => true
+  end.
+Fixpoint cpok_l (l : list cstmt) : bool := match l with [] => true | x :: r => cpok_s x && cpok_l r end.
+
 (* THE shape condition on the generated programs *)
 Definition check_shape (sh : cshape) : bool :=
   centry_ok false true (sh_queue sh) && centry_ok false true (sh_send sh) &&
@@ -208,7 +223,9 @@ Definition check_shape (sh : cshape) : bool :=
   centry_ok false false (sh_flush sh) && centry_ok false false (sh_resend sh) &&
   cleaf_eqb (sh_leaf sh) cleaf_expected &&
   (cnosetout_l (sh_queue sh) && cnosetout_l (sh_send sh) && cnosetout_l (sh_dropsend sh) &&
-   cnosetout_l (sh_dropreset sh) && cnosetout_l (sh_flush sh) && cnosetout_l (sh_resend sh)).
+   cnosetout_l (sh_dropreset sh) && cnosetout_l (sh_flush sh) && cnosetout_l (sh_resend sh)) &&
+  (cpok_l (sh_queue sh) && cpok_l (sh_send sh) && cpok_l (sh_dropsend sh) &&
+   cpok_l (sh_dropreset sh) && cpok_l (sh_flush sh) && cpok_l (sh_resend sh)).
 
 (* ---------- concrete state ---------- *)
 Inductive cwr := WNone | WPend (t : nat) | WHeld (t : nat).   (* sync.RWMutex: a pending writer blocks new readers *)
@@ -275,7 +292,7 @@ Definition cmsg_rej (m : cmsg) : bool := match m with MApp r => r | _ => false e
 
 Definition ceval_e (l : cth) (e : cexpr) : Z :=
   match e with
-  | EBegin => th_b l | EEnd1 => th_e l + 1 | ESent => th_sent l | ESent1 => th_sent l + 1
+  | EBegin => th_b l | EEnd => th_e l | EEnd1 => th_e l + 1 | ESent => th_sent l | ESent1 => th_sent l + 1
   | EVSeq => th_vseq l | EVNext => th_vnext l
   end.
 
@@ -288,6 +305,7 @@ Fixpoint ceval_c (g : cshared) (l : cth) (ch : bool) (c : ccond) : bool :=
   | CResetFlag => cmsg_reset (th_msg l)
   | CNoPersist => negb (c_persist g)
   | CNeq a b => negb (Z.eqb (ceval_e l a) (ceval_e l b))
+  | CGt a b => Z.ltb (ceval_e l b) (ceval_e l a)
   | COther => ch
   | CNot c' => negb (ceval_c g l ch c')
   end.
@@ -320,6 +338,10 @@ Fixpoint citerate (fuel : nat) (n : Z) (sv : list (Z * (nat * bool))) : list (Z 
            end
   end.
 
+(* handleLogon's generated program is usable by the positive theorems only if it is well shaped *)
+Definition clogon_ok (sh : cshape) : bool :=
+  centry_ok false false (sh_logon sh) && cnosetout_l (sh_logon sh) && cpok_l (sh_logon sh).
+
 (* ---------- starting an operation ---------- *)
 Definition cprog_of (sh : cshape) (o : cop) : list cstmt * cmsg * (bool * bool) :=
   match o with
@@ -330,6 +352,7 @@ Definition cprog_of (sh : cshape) (o : cop) : list cstmt * cmsg * (bool * bool) 
   | OFlush => (sh_flush sh, MAdmin, (false, false))
   | OResend _ _ _ => (sh_resend sh, MAdmin, (false, false))
   | OLogonResetUnlocked => (sh_logon sh, MAdmin, (false, false))
+  | OLogon => (if clogon_ok sh then sh_logon sh else [], MAdmin, (false, false))
   | OSetLogged b => ([SSetLogged b], MAdmin, (false, false))
   | OSetOut b _ => ([SSetOut b], MAdmin, (false, false))
   end.
